@@ -1,4 +1,4 @@
-add("C03", "checks/c03_match.c", ["default-plain", "default-asan", "c89-plain"], ["default-plain", "default-asan", "c89-plain", "uchar-plain"],
+add("C03", "checks/c03_match.c", ["default-plain", "default-asan", "c89-plain", "mcu-plain"], ["default-plain", "default-asan", "c89-plain", "uchar-plain", "mcu-plain", "mcu89-plain"],
     "cases = command patterns; evaluations = library calls (matchCommand with numbers_len 0..k+1 and with numbers NULL, SCPI_Match, one "
     "SCPI_Input dispatch with SCPI_CommandNumbers and two SCPI_IsCmd inside the handler) over (pattern, header) pairs, each pair decided "
     "by the reference matcher kit/ref_match.c. Patterns: every pattern of <= 3 keywords (thorough: <= 4) over {ALPHa,BETa,GAMma,GAMMARay,"
